@@ -102,9 +102,19 @@ let check_line (line : string) : unit =
       incr n_cases;
       if List.length !samples < 4 && !n_cases mod 211 = 1 then
         samples := (if String.length line > 1500 then String.sub line 0 1500 ^ "..." else line) :: !samples;
+      (* did a real borrow panic happen anywhere in this run?  (known finding KF1 is attributed only then, or for the
+         oracles that observe KF1 itself) *)
+      let contains hay needle =
+        let n = String.length needle and h = String.length hay in
+        let rec go i = i + n <= h && (String.sub hay i n = needle || go (i + 1)) in n > 0 && go 0 in
+      let bp = List.exists (fun (k, v) ->
+          String.length k >= 1 &&
+          ((k.[0] = 'T' && List.exists (fun r -> r.k = 'B') (try parse_trace v with _ -> [])) ||
+           (k.[0] = 'P' && contains v "626f72726f77"))) fields in
+      let mark = if bp then "+bp" else "" in
       let disagree field lvl m r =
-        incr n_disagree; Printf.printf "D %s L%d model=%s real=%s\t%s\n" field lvl m r case in
-      let oracle name lvl = incr n_oracle; Printf.printf "O %s L%d\t%s\n" name lvl case in
+        incr n_disagree; Printf.printf "D %s L%d%s model=%s real=%s\t%s\n" field lvl mark m r case in
+      let oracle name lvl = incr n_oracle; Printf.printf "O %s L%d%s\t%s\n" name lvl mark case in
       if get "builderr" <> "" then disagree "builderr" 0 "ok" (get "builderr") else begin
       (* --- levels, model layouts --- *)
       let lvls = List.map (fun (t, p) -> (int_of_n t, p)) (levels regs) in
